@@ -30,6 +30,7 @@ from . import npu_serialisation
 from . import pass_packing
 from . import scheduler
 from . import tensor_allocation
+from . import weight_compressor
 from .debug_database import DebugDatabase
 from .nn_graph import PassPlacement
 from .nn_graph import TensorAllocator
@@ -40,6 +41,7 @@ from .scheduler import OptimizationStrategy
 from .tensor import MemArea
 from .tensor import MemType
 from .tensor import Tensor
+from .tensor import TensorAddressMap
 from .utils import progress_print
 
 
@@ -158,6 +160,12 @@ def _check_schedule(nng, arch, scheduler_options):
 def compiler_driver(nng, arch, options, scheduler_options, network_type, output_basename, subgraph_output = False):
     assert verify_graph_health(nng)
     verbose_progress = scheduler_options.verbose_progress
+
+    # Tensor addresses are kept in a process-wide map keyed by equivalence id; equivalence ids of LUT tensors are derived
+    # from their contents, so addresses of an earlier compilation in this process must not leak into this one
+    TensorAddressMap.clear_address_map()
+    # Likewise the compressed weight cache holds tensors (memory area, address) of the compilation that filled it
+    weight_compressor.CompressedWeightCache.cache.clear()
 
     # Pre-optimisation operator tracking
     for sg in nng.subgraphs:
